@@ -38,7 +38,7 @@ prop("C02", [RO.rule_EF1, RO.rule_OR2_responder, RO.rule_CR, RO.rule_OR2_gatekee
      "owner removal precedes Watcher/Responder and cascades in the DB, foreign keys switched on in the production constructor (OR1, OR2g, SQ1); a cache hit is acted on inside the same locator-cache critical section that found it, so the disconnect purge cannot run between look-up and broadcast (AT1). "
      "NOT decided: that exactly the disconnected block's entries are purged (container contents, C19).",
      technique="who-may-call + interprocedural origin tracing + SQL schema tables")
-prop("C03", [RO.rule_OR3, CF.rule_CF_switches, LK.rule_CBS, RO.rule_OR2_watcher, SQ.rule_SQ3, SQ.rule_SQ1, SQ.rule_SQ5_tower, LK.rule_AT2, RO.rule_OR2_gatekeeper, ED.rule_ED, DX.rule_DX],
+prop("C03", [RO.rule_OR3, CF.rule_CF_switches, SQ.rule_SQ7, SQ.rule_SQ8, LK.rule_CBS, RO.rule_OR2_watcher, SQ.rule_SQ3, SQ.rule_SQ1, SQ.rule_SQ5_tower, LK.rule_AT2, RO.rule_OR2_gatekeeper, ED.rule_ED, DX.rule_DX],
      STATIC + "Decided (ordering of durable effects, what crash-safety rests on): last-known-block written by one function only on Ok(Better(tip)) of the poll that delivered the blocks; "
      "bootstrap poll before any API is spawned; tower key regenerated only if --overwritekey or none stored (OR3); slots charged (successfully) before the store (CBS); "
      "multi-statement writes are one committed sqlite transaction (SQ3); cascades on (SQ1); one critical section and one DB delete per balance update (AT2); "
@@ -66,7 +66,7 @@ prop("C07", [RT.rule_SL, LK.rule_AT2, RO.rule_EF2, RO.rule_EF3, SQ.rule_SQ3, SQ.
      "refund adds slots(stored blob) and is persisted in the deletion's transaction; one critical section per balance update; only completion refunds; one divisor (2048) at all charge/refund sites; "
      "the balance reported is the one computed and persisted; a charge is always followed by the store (no refusal after the balance moved) (CBS); the reads the charge and the refund are computed from range over every stored appointment of the uuid, triggered or not (SQ4 query-scope table); a refused registration writes nothing to the live record, so no slots are minted by a request that was turned down (SB all-or-nothing). NOT decided: the conservation law over histories, the float slot formula per blob length.",
      technique="comparison/arithmetic shape rules over origin terms + lock spans")
-prop("C08", [RT.rule_RC, WT.rule_WT3, SQ.rule_SQ2, LK.rule_AT2, ED.rule_ED, DX.rule_DX, RO.rule_OR2_watcher, LK.rule_AT1, SQ.rule_SQ6],
+prop("C08", [RT.rule_RC, WT.rule_WT3, SQ.rule_SQ2, LK.rule_AT2, ED.rule_ED, DX.rule_DX, RO.rule_OR2_watcher, LK.rule_AT1, SQ.rule_SQ6, SQ.rule_SQ7, SQ.rule_SQ8],
      STATIC + "Decided: an appointment receipt is returned only on paths that stored the appointment / handed it to the responder, is built from the same ExtendedAppointment (request signature, "
      "height at acceptance) and is signed with the tower key; registration receipts are built from the persisted record; gRPC responses map like-named fields (RC); signed layouts cover every field "
      "once with at most one variable-length component, integers whole through to_be_bytes of their own width (WT3); updates rewrite all mutable columns, inserts/updates bind parameters in column order (SQ2); every read-modify-write of a user record is one critical section, so the record a registration receipt was built from is not overwritten by a concurrent stale copy (AT2); a late-triggered appointment is given up only when the Responder answered Rejected, so a receipt never stands for an appointment dropped without cause (OR2w); the cache look-up that finds the dispute confirmed and the store / hand-over that acts on it are one critical section of the locator cache, so a reorg or a re-submission cannot slip between 'confirmed' and 'dropped because the node refused' (AT1). NOT decided: signature validity, byte-for-byte read-back.",
@@ -115,7 +115,7 @@ prop("C17", [CY.rule_CY, RO.rule_EF3],
      "functions; verify = (recover_pk(msg, sig) == pk) with every error mapped to false (CY); locator = first 16 bytes of the txid (EF3). NOT decided: that the primitives are inverse / reject tampering for all inputs "
      "(values computed by ChaCha20-Poly1305, SHA-256, ECDSA), nor anything about the primitives' own code.",
      technique="sibling-agreement check on interprocedural origin terms (canonicalised operand terms of the two AEAD call sites) + return-term shape")
-prop("C18", [PL.rule_PL7, SQ.rule_SQ1, SQ.rule_SQ3, PL.rule_PL3, SQ.rule_SQ5_client, ED.rule_ED, DX.rule_DX, SQ.rule_SQ2, SQ.rule_SQ6],
+prop("C18", [PL.rule_PL7, SQ.rule_SQ1, SQ.rule_SQ3, PL.rule_PL3, SQ.rule_SQ5_client, ED.rule_ED, DX.rule_DX, SQ.rule_SQ2, SQ.rule_SQ6, SQ.rule_SQ7, SQ.rule_SQ8],
      STATIC + "Decided: every mutator changes memory and disk together and only mutators do; status reconstruction agrees between the two loaders; client schema cascades from towers (and appointments) with foreign keys on; "
      "multi-statement writes are transactions; add-before-delete. NOT decided: the reference-counting rule of delete_pending_appointment over operation sequences; memory == disk after histories.",
      technique="who-may-write/call tables + must-follow analysis + SQL schema tables")
